@@ -164,6 +164,16 @@ def usesGradLower (m : String) : Bool := gradMethodsLower.contains m
 /-- `method.lower() in …`; `lower` is Python's `str.lower` (`String.toLower` in the driver) -/
 def usesGrad (lower : String → String) (method : String) : Bool := usesGradLower (lower method)
 
+/-- the `method` argument: a solver name or a user-supplied callable (scipy's custom-minimiser protocol) -/
+inductive Method where
+  | name : String → Method
+  | callable : Method
+
+/-- `isinstance(method, str) and method.lower() in …`: a callable method never gets the jax gradient -/
+def usesGradM (lower : String → String) : Method → Bool
+  | .name m => usesGrad lower m
+  | .callable => false
+
 /-- all solvers of `scipy.optimize.minimize` (lower case) and the ones that take no gradient -/
 def scipyMethods : List String :=
   ["nelder-mead", "powell", "cg", "bfgs", "newton-cg", "l-bfgs-b", "tnc", "cobyla", "cobyqa", "slsqp",
